@@ -1,2 +1,432 @@
+(* Proofs for property C08: the push-data walk against the item grammar, and the subscription
+   filter against its declarative meaning. *)
 From V.lib Require Import Base.
 From V.model Require Import Script ScriptSpec.
+From Coq Require Import ZifyBool ZifyNat.
+
+(* ---------------------------------------------------------------------------------------- *)
+(* little-endian size fields *)
+Lemma le_bytes_length w n : length (le_bytes w n) = w.
+Proof.
+  revert n; induction w as [|w IH]; intros n; [reflexivity|].
+  cbn [le_bytes length]. f_equal. apply IH.
+Qed.
+
+Lemma le_val_cons b bs : le_val (b :: bs) = b + 256 * le_val bs.
+Proof. reflexivity. Qed.
+
+Lemma le_val_le_bytes w n : le_val (le_bytes w n) = n mod 256 ^ Z.of_nat w.
+Proof.
+  revert n; induction w as [|w IH]; intros n.
+  - cbn [le_bytes]. change (le_val []) with 0. change (256 ^ Z.of_nat 0) with 1.
+    symmetry. apply Z.mod_1_r.
+  - cbn [le_bytes]. rewrite le_val_cons, IH.
+    rewrite Nat2Z.inj_succ, Z.pow_succ_r by lia.
+    symmetry. apply Z.rem_mul_r; [lia|]. apply Z.pow_pos_nonneg; lia.
+Qed.
+
+Lemma le_val_le_bytes_small w n : 0 <= n < 256 ^ Z.of_nat w -> le_val (le_bytes w n) = n.
+Proof. intros Hn. rewrite le_val_le_bytes. apply Z.mod_small. exact Hn. Qed.
+
+Lemma zlen_nonneg {A} (l : list A) : 0 <= zlen l.
+Proof. unfold zlen. lia. Qed.
+
+Lemma zlen_app {A} (l k : list A) : zlen (l ++ k) = zlen l + zlen k.
+Proof. unfold zlen. rewrite app_length. lia. Qed.
+
+Lemma to_nat_zlen {A} (l : list A) : Z.to_nat (zlen l) = length l.
+Proof. unfold zlen. apply Nat2Z.id. Qed.
+
+(* ---------------------------------------------------------------------------------------- *)
+(* one item *)
+Lemma sized_push_encode w d rest :
+  zlen d < 256 ^ Z.of_nat w ->
+  sized_push w (le_bytes w (zlen d) ++ d ++ rest) = IPush d rest.
+Proof.
+  intros Hlt. unfold sized_push.
+  assert (Hlen : (length (le_bytes w (zlen d) ++ d ++ rest) <? w)%nat = false).
+  { rewrite app_length, le_bytes_length. lia. }
+  rewrite Hlen.
+  rewrite (take_app_alt (le_bytes w (zlen d)) (d ++ rest) w) by (symmetry; apply le_bytes_length).
+  rewrite (drop_app_alt (le_bytes w (zlen d)) (d ++ rest) w) by (symmetry; apply le_bytes_length).
+  rewrite le_val_le_bytes_small by (split; [apply zlen_nonneg | exact Hlt]).
+  destruct (zlen d =? 0) eqn:Hz.
+  - destruct d as [|x d]; [reflexivity|]. unfold zlen in Hz. cbn [length] in Hz. lia.
+  - assert (Hgt : (zlen d >? zlen (d ++ rest)) = false).
+    { rewrite zlen_app. pose proof (zlen_nonneg rest). lia. }
+    rewrite Hgt, to_nat_zlen.
+    rewrite (take_app_alt d rest (length d)) by reflexivity.
+    rewrite (drop_app_alt d rest (length d)) by reflexivity.
+    reflexivity.
+Qed.
+
+Lemma parse_item_76 r : parse_item (76 :: r) = sized_push 1 r.
+Proof. reflexivity. Qed.
+Lemma parse_item_77 r : parse_item (77 :: r) = sized_push 2 r.
+Proof. reflexivity. Qed.
+Lemma parse_item_78 r : parse_item (78 :: r) = sized_push 4 r.
+Proof. reflexivity. Qed.
+
+Lemma parse_item_direct op r :
+  1 <= op <= 75 ->
+  parse_item (op :: r) =
+    if op >? zlen r then IError else IPush (take (Z.to_nat op) r) (drop (Z.to_nat op) r).
+Proof.
+  intros Hop. unfold parse_item.
+  assert (H0 : (op =? 0) = false) by lia.
+  assert (H1 : (op <=? 75) = true) by lia.
+  rewrite H0, H1. reflexivity.
+Qed.
+
+Lemma parse_item_num n r : 1 <= n <= 16 -> parse_item ((80 + n) :: r) = IPush [n] r.
+Proof.
+  intros Hn. unfold parse_item.
+  assert (H0 : (80 + n =? 0) = false) by lia.
+  assert (H1 : (80 + n <=? 75) = false) by lia.
+  assert (H2 : ((81 <=? 80 + n) && (80 + n <=? 96)) = true) by lia.
+  rewrite H0, H1, H2. f_equal. f_equal. lia.
+Qed.
+
+Lemma parse_item_op b r : b = 80 \/ 97 <= b -> parse_item (b :: r) = INotPush r.
+Proof.
+  intros Hb. unfold parse_item.
+  assert (H0 : (b =? 0) = false) by lia.
+  assert (H1 : (b <=? 75) = false) by lia.
+  assert (H2 : ((81 <=? b) && (b <=? 96)) = false) by lia.
+  assert (H3 : (b =? 79) = false) by lia.
+  assert (H4 : (b =? 76) = false) by lia.
+  assert (H5 : (b =? 77) = false) by lia.
+  assert (H6 : (b =? 78) = false) by lia.
+  rewrite H0, H1, H2, H3, H4, H5, H6. reflexivity.
+Qed.
+
+Lemma encode_pushdata_app w d rest :
+  encode_item (ItPushData w d) ++ rest =
+  (match w with 1%nat => 76 | 2%nat => 77 | _ => 78 end) :: le_bytes w (zlen d) ++ d ++ rest.
+Proof. unfold encode_item. rewrite <- app_comm_cons, <- app_assoc. reflexivity. Qed.
+
+Lemma parse_item_encode it rest :
+  wf_item it ->
+  parse_item (encode_item it ++ rest) =
+    match item_push it with Some d => IPush d rest | None => INotPush rest end.
+Proof.
+  intros Hwf. destruct it as [|d|n| |w d|b].
+  - reflexivity.
+  - destruct Hwf as [Hlen _].
+    change (encode_item (ItDirect d) ++ rest) with (zlen d :: d ++ rest).
+    cbn [item_push].
+    rewrite parse_item_direct by (unfold zlen; lia).
+    assert (Hgt : (zlen d >? zlen (d ++ rest)) = false).
+    { rewrite zlen_app. pose proof (zlen_nonneg rest). lia. }
+    rewrite Hgt, to_nat_zlen.
+    rewrite (take_app_alt d rest (length d)) by reflexivity.
+    rewrite (drop_app_alt d rest (length d)) by reflexivity.
+    reflexivity.
+  - change (encode_item (ItNum n) ++ rest) with ((80 + n) :: rest).
+    cbn [item_push]. apply parse_item_num. exact Hwf.
+  - reflexivity.
+  - destruct Hwf as (Hw & Hlt & _).
+    rewrite encode_pushdata_app. cbn [item_push].
+    destruct Hw as [-> | [-> | ->]].
+    + rewrite parse_item_76. apply sized_push_encode. exact Hlt.
+    + rewrite parse_item_77. apply sized_push_encode. exact Hlt.
+    + rewrite parse_item_78. apply sized_push_encode. exact Hlt.
+  - destruct Hwf as [_ Hb].
+    change (encode_item (ItOp b) ++ rest) with (b :: rest).
+    cbn [item_push]. apply parse_item_op. exact Hb.
+Qed.
+
+(* ---------------------------------------------------------------------------------------- *)
+(* the walk over a sequence of items *)
+Lemma pushes_fuel_S f s :
+  pushes_fuel (S f) s =
+    match parse_item s with
+    | IPush d rest => d :: pushes_fuel f rest
+    | INotPush rest => pushes_fuel f rest
+    | IError => []
+    end.
+Proof. reflexivity. Qed.
+
+Lemma pushes_fuel_nil f : pushes_fuel f [] = [].
+Proof. destruct f; reflexivity. Qed.
+
+Lemma pushes_fuel_error f s : parse_item s = IError -> pushes_fuel f s = [].
+Proof. intros He. destruct f; [reflexivity|]. rewrite pushes_fuel_S, He. reflexivity. Qed.
+
+Lemma encode_items_cons it its : encode_items (it :: its) = encode_item it ++ encode_items its.
+Proof. reflexivity. Qed.
+
+Lemma pushes_of_cons it its :
+  pushes_of (it :: its) =
+    match item_push it with Some d => d :: pushes_of its | None => pushes_of its end.
+Proof. reflexivity. Qed.
+
+Lemma encode_item_length it : (1 <= length (encode_item it))%nat.
+Proof. destruct it; cbn [encode_item length]; lia. Qed.
+
+Lemma encode_items_length its : (length its <= length (encode_items its))%nat.
+Proof.
+  induction its as [|it its IH]; [reflexivity|].
+  rewrite encode_items_cons, app_length. cbn [length].
+  pose proof (encode_item_length it). lia.
+Qed.
+
+Lemma pushes_fuel_items its :
+  Forall wf_item its ->
+  forall fuel tail, (length its <= fuel)%nat ->
+    pushes_fuel fuel (encode_items its ++ tail) =
+    pushes_of its ++ pushes_fuel (fuel - length its) tail.
+Proof.
+  induction 1 as [|it its Hwf _ IH]; intros fuel tail Hfuel.
+  - cbn [length]. rewrite Nat.sub_0_r. reflexivity.
+  - cbn [length] in Hfuel. destruct fuel as [|f]; [lia|].
+    rewrite encode_items_cons, <- app_assoc, pushes_fuel_S, parse_item_encode by exact Hwf.
+    rewrite pushes_of_cons. cbn [length]. rewrite Nat.sub_succ.
+    destruct (item_push it) as [d|].
+    + rewrite IH by lia. reflexivity.
+    + apply IH. lia.
+Qed.
+
+Lemma pushes_items its tail :
+  Forall wf_item its ->
+  pushes (encode_items its ++ tail) =
+  pushes_of its ++ pushes_fuel (S (length (encode_items its ++ tail)) - length its) tail.
+Proof.
+  intros Hwf. unfold pushes. apply pushes_fuel_items; [exact Hwf|].
+  rewrite app_length. pose proof (encode_items_length its). lia.
+Qed.
+
+Lemma parser_refines_grammar :
+  forall (its : list item) (tail : bytes),
+    Forall wf_item its ->
+    exists more, pushes (encode_items its ++ tail) = pushes_of its ++ more.
+Proof.
+  intros its tail Hwf. eexists. apply pushes_items. exact Hwf.
+Qed.
+
+Lemma parser_exact :
+  forall its : list item, Forall wf_item its -> pushes (encode_items its) = pushes_of its.
+Proof.
+  intros its Hwf. rewrite <- (app_nil_r (encode_items its)) at 1.
+  rewrite pushes_items by exact Hwf. rewrite pushes_fuel_nil. apply app_nil_r.
+Qed.
+
+(* ---------------------------------------------------------------------------------------- *)
+(* truncated items *)
+Lemma sized_push_truncated w d m :
+  zlen d < 256 ^ Z.of_nat w -> (m < w + length d)%nat ->
+  sized_push w (take m (le_bytes w (zlen d) ++ d)) = IError.
+Proof.
+  intros Hlt Hm. unfold sized_push.
+  destruct (length (take m (le_bytes w (zlen d) ++ d)) <? w)%nat eqn:Hshort; [reflexivity|].
+  rewrite take_length, app_length, le_bytes_length in Hshort.
+  assert (Hwm : (w <= m)%nat) by lia.
+  rewrite (take_app_ge (le_bytes w (zlen d)) d m) by (rewrite le_bytes_length; exact Hwm).
+  rewrite le_bytes_length.
+  rewrite (take_app_alt (le_bytes w (zlen d)) (take (m - w) d) w) by (symmetry; apply le_bytes_length).
+  rewrite (drop_app_alt (le_bytes w (zlen d)) (take (m - w) d) w) by (symmetry; apply le_bytes_length).
+  rewrite le_val_le_bytes_small by (split; [apply zlen_nonneg | exact Hlt]).
+  assert (Hz : (zlen d =? 0) = false) by (unfold zlen; lia).
+  assert (Hgt : (zlen d >? zlen (take (m - w) d)) = true).
+  { unfold zlen. rewrite take_length. lia. }
+  rewrite Hz, Hgt. reflexivity.
+Qed.
+
+Lemma parse_item_truncated it n :
+  wf_item it -> item_push it <> None ->
+  (0 < n < length (encode_item it))%nat ->
+  parse_item (take n (encode_item it)) = IError.
+Proof.
+  intros Hwf Hpush Hn. destruct it as [|d|k| |w d|b].
+  - cbn [encode_item length] in Hn. lia.
+  - destruct Hwf as [Hlen _]. cbn [encode_item length] in Hn.
+    destruct n as [|m]; [lia|].
+    change (take (S m) (encode_item (ItDirect d))) with (zlen d :: take m d).
+    rewrite parse_item_direct by (unfold zlen; lia).
+    assert (Hgt : (zlen d >? zlen (take m d)) = true).
+    { unfold zlen. rewrite take_length. lia. }
+    rewrite Hgt. reflexivity.
+  - cbn [encode_item length] in Hn. lia.
+  - cbn [encode_item length] in Hn. lia.
+  - destruct Hwf as (Hw & Hlt & _). cbn [encode_item length] in Hn.
+    rewrite app_length, le_bytes_length in Hn.
+    destruct n as [|m]; [lia|].
+    assert (Hm : (m < w + length d)%nat) by lia.
+    unfold encode_item. rewrite firstn_cons.
+    destruct Hw as [-> | [-> | ->]].
+    + rewrite parse_item_76. apply sized_push_truncated; assumption.
+    + rewrite parse_item_77. apply sized_push_truncated; assumption.
+    + rewrite parse_item_78. apply sized_push_truncated; assumption.
+  - exfalso. apply Hpush. reflexivity.
+Qed.
+
+Lemma truncated_tail :
+  forall (its : list item) (it : item) (n : nat),
+    Forall wf_item its -> wf_item it -> item_push it <> None ->
+    (0 < n < length (encode_item it))%nat ->
+    pushes (encode_items its ++ take n (encode_item it)) = pushes_of its.
+Proof.
+  intros its it n Hwfs Hwf Hpush Hn.
+  rewrite pushes_items by exact Hwfs.
+  rewrite pushes_fuel_error by (apply parse_item_truncated; assumption).
+  apply app_nil_r.
+Qed.
+
+(* ---------------------------------------------------------------------------------------- *)
+(* the filter *)
+Lemma bytes_eqb_eq x y : bytes_eqb x y = true <-> x = y.
+Proof.
+  revert y; induction x as [|a x IH]; intros [|b y]; cbn [bytes_eqb].
+  - split; reflexivity.
+  - split; discriminate.
+  - split; discriminate.
+  - rewrite andb_true_iff, Z.eqb_eq, IH. split.
+    + intros [-> ->]. reflexivity.
+    + intros Heq. injection Heq as -> ->. split; reflexivity.
+Qed.
+
+Lemma bytes_eqb_refl x : bytes_eqb x x = true.
+Proof. apply bytes_eqb_eq. reflexivity. Qed.
+
+Lemma subscribed_spec s k : subscribed s k = true <-> In k (subs s).
+Proof.
+  unfold subscribed. rewrite existsb_exists. split.
+  - intros (x & Hx & He). apply bytes_eqb_eq in He. subst x. exact Hx.
+  - intros Hk. exists k. split; [exact Hk | apply bytes_eqb_refl].
+Qed.
+
+Lemma script_matches_spec H160 s sc :
+  script_matches H160 s sc = true <->
+  exists p k, In p (pushes sc) /\ In k (subs s) /\ k = push_key H160 p.
+Proof.
+  unfold script_matches. rewrite existsb_exists. split.
+  - intros (p & Hp & Hs). apply subscribed_spec in Hs.
+    exists p, (push_key H160 p). split; [exact Hp|]. split; [exact Hs | reflexivity].
+  - intros (p & k & Hp & Hk & ->). exists p. split; [exact Hp|].
+    apply subscribed_spec. exact Hk.
+Qed.
+
+Lemma filter_iff :
+  forall (H160 : bytes -> bytes) (cf : bytes -> bool) (s : fstate) (outs ins : list bytes),
+    is_relevant H160 cf s outs ins = true <-> relevant_spec H160 cf s outs ins.
+Proof.
+  intros H160 cf s outs ins. unfold is_relevant, relevant_spec.
+  rewrite !orb_true_iff, andb_true_iff, !existsb_exists. split.
+  - intros [[[Hc (o & Ho & Hcf)] | (sc & Hsc & Hm)] | (sc & Hsc & Hm)].
+    + left. split; [exact Hc|]. exists o. split; assumption.
+    + right. apply script_matches_spec in Hm as (p & k & Hp & Hk & He).
+      exists sc, p, k. split; [apply in_or_app; left; exact Hsc|].
+      split; [exact Hp|]. split; assumption.
+    + right. apply script_matches_spec in Hm as (p & k & Hp & Hk & He).
+      exists sc, p, k. split; [apply in_or_app; right; exact Hsc|].
+      split; [exact Hp|]. split; assumption.
+  - intros [[Hc (o & Ho & Hcf)] | (sc & p & k & Hsc & Hp & Hk & He)].
+    + left. left. split; [exact Hc|]. exists o. split; assumption.
+    + assert (Hm : script_matches H160 s sc = true).
+      { apply script_matches_spec. exists p, k. split; [exact Hp|]. split; assumption. }
+      apply in_app_or in Hsc as [Hsc | Hsc].
+      * left. right. exists sc. split; assumption.
+      * right. exists sc. split; assumption.
+Qed.
+
+(* ---------------------------------------------------------------------------------------- *)
+(* subscribe / unsubscribe as multiset operations *)
+Lemma remove_first_perm k l l' : l ≡ₚ l' -> remove_first k l ≡ₚ remove_first k l'.
+Proof.
+  induction 1 as [|x l l' Hp IH|x y l|l l' l'' _ IH1 _ IH2].
+  - reflexivity.
+  - cbn [remove_first]. destruct (bytes_eqb x k); [exact Hp|]. apply perm_skip. exact IH.
+  - cbn [remove_first].
+    destruct (bytes_eqb y k) eqn:Hy, (bytes_eqb x k) eqn:Hx.
+    + apply bytes_eqb_eq in Hy, Hx. subst x y. reflexivity.
+    + reflexivity.
+    + reflexivity.
+    + apply perm_swap.
+  - etransitivity; eassumption.
+Qed.
+
+Lemma remove_first_head k l : remove_first k (k :: l) = l.
+Proof. cbn [remove_first]. rewrite bytes_eqb_refl. reflexivity. Qed.
+
+Lemma fold_remove_perm {A} (key : A -> bytes) ds :
+  forall l l', l ≡ₚ l' ->
+    fold_left (fun l d => remove_first (key d) l) ds l ≡ₚ
+    fold_left (fun l d => remove_first (key d) l) ds l'.
+Proof.
+  induction ds as [|d ds IH]; intros l l' Hp; cbn [fold_left].
+  - exact Hp.
+  - apply IH. apply remove_first_perm. exact Hp.
+Qed.
+
+Lemma fold_remove_inverse {A} (key : A -> bytes) ds :
+  forall S, fold_left (fun l d => remove_first (key d) l) ds (S ++ map key ds) ≡ₚ S.
+Proof.
+  induction ds as [|d ds IH]; intros S.
+  - cbn [map fold_left]. rewrite app_nil_r. reflexivity.
+  - cbn [map fold_left].
+    etransitivity; [|apply (IH S)].
+    apply fold_remove_perm.
+    etransitivity.
+    + apply remove_first_perm. symmetry. apply Permutation_middle.
+    + rewrite remove_first_head. reflexivity.
+Qed.
+
+Lemma sub_unsub_inverse :
+  forall (H160 : bytes -> bytes) (s : fstate) (ds : list bytes),
+    subs (unsubscribe H160 (subscribe H160 s ds) ds) ≡ₚ subs s /\
+    contracts (unsubscribe H160 (subscribe H160 s ds) ds) = contracts s.
+Proof.
+  intros H160 s ds. split; [|reflexivity].
+  unfold unsubscribe, subscribe. cbn [subs].
+  apply (fold_remove_inverse (push_key H160)).
+Qed.
+
+(* ---------------------------------------------------------------------------------------- *)
+(* relevance depends on the subscriptions only as a multiset *)
+Lemma existsb_perm {A} (f : A -> bool) l l' : l ≡ₚ l' -> existsb f l = existsb f l'.
+Proof.
+  induction 1 as [|x l l' _ IH|x y l|l l' l'' _ IH1 _ IH2].
+  - reflexivity.
+  - cbn [existsb]. rewrite IH. reflexivity.
+  - cbn [existsb]. destruct (f x), (f y); reflexivity.
+  - congruence.
+Qed.
+
+Lemma existsb_ext' {A} (f g : A -> bool) l : (forall x, f x = g x) -> existsb f l = existsb g l.
+Proof.
+  intros Hfg. induction l as [|x l IH]; [reflexivity|].
+  cbn [existsb]. rewrite Hfg, IH. reflexivity.
+Qed.
+
+Lemma relevance_perm :
+  forall (H160 : bytes -> bytes) (cf : bytes -> bool) (s s' : fstate) (outs ins : list bytes),
+    subs s ≡ₚ subs s' -> contracts s = contracts s' ->
+    is_relevant H160 cf s outs ins = is_relevant H160 cf s' outs ins.
+Proof.
+  intros H160 cf s s' outs ins Hp Hc.
+  assert (Hsub : forall k, subscribed s k = subscribed s' k).
+  { intros k. unfold subscribed. apply existsb_perm. exact Hp. }
+  assert (Hm : forall sc, script_matches H160 s sc = script_matches H160 s' sc).
+  { intros sc. unfold script_matches. apply existsb_ext'. intros p. apply Hsub. }
+  unfold is_relevant. rewrite Hc.
+  rewrite (existsb_ext' _ _ outs Hm), (existsb_ext' _ _ ins Hm). reflexivity.
+Qed.
+
+(* ---------------------------------------------------------------------------------------- *)
+Lemma push_key_idem H160 d : length (H160 d) = 20%nat -> push_key H160 (push_key H160 d) = push_key H160 d.
+Proof.
+  intros H20. unfold push_key at 2 3.
+  destruct (length d =? 20)%nat eqn:Hd.
+  - unfold push_key. rewrite Hd. reflexivity.
+  - unfold push_key. rewrite H20. reflexivity.
+Qed.
+
+Lemma raw_eq_hash :
+  forall (H160 : bytes -> bytes) (s : fstate) (d : bytes),
+    length (H160 d) = 20%nat ->
+    subscribe H160 s [d] = subscribe H160 s [push_key H160 d] /\
+    unsubscribe H160 s [d] = unsubscribe H160 s [push_key H160 d].
+Proof.
+  intros H160 s d H20. unfold subscribe, unsubscribe. cbn [map fold_left].
+  rewrite push_key_idem by exact H20. split; reflexivity.
+Qed.
